@@ -40,7 +40,7 @@ CFG = {
                       "those tamperings because ciphertext differs from run to run; the theorems cover them: cv is universally "
                       "quantified).",
         "harness": "c13",
-        "n": {"quick": 300, "thorough": 20000},
+        "n": {"quick": 300, "thorough": 8000},
         "timeout": {"quick": 900, "thorough": 14400},
         "rule": "one case = one real noise session (init = handshake) followed by 6-40 poll-level ops; N generated cases: 30% "
                 "random two-way traffic (write sizes 0..70000 incl. 65518/65519/65520, flushes, reads with caps 0..100000, "
